@@ -357,6 +357,27 @@ fn probe(sock: &std::net::UdpSocket, name: &str, tries: usize) -> bool {
     false
 }
 
+/// Some(true): answers. Some(false): silent for 10 s while a responder created just now answers on the same
+/// sockets (so the silence is not the environment's). None: nothing answers; no claim.
+fn patient_probe(sock: &std::net::UdpSocket, name: &str) -> Option<bool> {
+    if probe(sock, name, 5) {
+        return Some(true);
+    }
+    std::thread::sleep(std::time::Duration::from_millis(500));
+    if probe(sock, name, 20) {
+        return Some(true);
+    }
+    let mut control = simple_mdns::sync_discovery::SimpleMdnsResponder::new(10);
+    control.add_resource(simple_dns::ResourceRecord::new(Name::new_unchecked("vp-control.local"), simple_dns::CLASS::IN, 10, RData::A(simple_dns::rdata::A { address: 0x7f000009 })));
+    std::thread::sleep(std::time::Duration::from_millis(300));
+    if probe(sock, "vp-control.local", 10) {
+        // one more chance for the responder under test, now that the environment is known to work
+        Some(probe(sock, name, 5))
+    } else {
+        None
+    }
+}
+
 fn enum_socket(t: Tier, shard: usize, _n: usize, f: &mut dyn FnMut(u32) -> bool) {
     if shard == 0 {
         f(t.pick(300, 6000));
@@ -525,9 +546,9 @@ fn check_socket(count: &u32, case: &mut Case) -> Result<(), Fail> {
                 }
                 if let Ok(d) = &discovery {
                     // the store must still be usable by the application
-                    let r = tokio::time::timeout(std::time::Duration::from_secs(2), d.get_known_services()).await;
+                    let r = tokio::time::timeout(std::time::Duration::from_secs(30), d.get_known_services()).await;
                     if r.is_err() {
-                        *sp.lock().unwrap() = Some(meter::Panic { msg: "get_known_services of the async discovery did not return within 2 s".into(), file: "simple-mdns/src/async_discovery/service_discovery.rs".into(), line: 0 });
+                        *sp.lock().unwrap() = Some(meter::Panic { msg: "get_known_services of the async discovery did not return within 30 s".into(), file: "simple-mdns/src/async_discovery/service_discovery.rs".into(), line: 0 });
                     }
                 }
             });
@@ -562,7 +583,7 @@ fn check_socket(count: &u32, case: &mut Case) -> Result<(), Fail> {
     } else {
         case.class("async-services-skipped");
     }
-    let async_alive = !async_up || probe(&sock, "vp-canary-async.local", 5);
+    let async_alive = if async_up { patient_probe(&sock, "vp-canary-async.local") } else { Some(true) };
     stop.store(true, std::sync::atomic::Ordering::SeqCst);
     if let Ok(t) = async_thread {
         let _ = t.join();
@@ -584,7 +605,7 @@ fn check_socket(count: &u32, case: &mut Case) -> Result<(), Fail> {
     case.class("socket-tier-ran");
     std::thread::sleep(std::time::Duration::from_millis(300));
     // barrier: the responder still answers, the discovery store is still usable
-    let alive = probe(&sock, "vp-canary.local", 5);
+    let alive = patient_probe(&sock, "vp-canary.local");
     let known = meter::catch(|| discovery.get_known_services().len());
     let panics: Vec<(String, meter::Panic)> = meter::ALL_PANICS.lock().unwrap()[before..].iter().filter(|(_, p)| p.in_library()).cloned().collect();
     if let Some((thread, p)) = panics.first() {
@@ -596,8 +617,13 @@ fn check_socket(count: &u32, case: &mut Case) -> Result<(), Fail> {
     if let Some(p) = async_store_panic.lock().unwrap().take() {
         return Err(Fail::new("c14:store-unusable", format!("async discovery: {}", p.msg)));
     }
-    ensure!(async_alive, "c14:responder-dead", "the async responder answered before the hostile datagrams and does not answer afterwards (5 retries)");
-    ensure!(alive, "c14:responder-dead", "the responder answered before {} hostile datagrams and does not answer afterwards (5 retries)", sent);
+    if alive.is_none() || async_alive.is_none() {
+        // neither the responder under test nor a fresh control responder answers: the environment went away
+        case.class("socket-tier-inconclusive:control-responder-silent");
+        return Ok(());
+    }
+    ensure!(async_alive == Some(true), "c14:responder-dead", "the async responder answered before the hostile datagrams and does not answer afterwards (30 retries over 10 s), while a responder created afterwards does");
+    ensure!(alive == Some(true), "c14:responder-dead", "the responder answered before {} hostile datagrams and does not answer afterwards (30 retries over 10 s), while a responder created afterwards does", sent);
     Ok(())
 }
 
@@ -728,7 +754,7 @@ fn check_concurrent(seed: &u32, case: &mut Case) -> Result<(), Fail> {
 pub fn def() -> CheckDef {
     CheckDef {
         id: "C14",
-        rule: "(1) pure pipeline, proptest: a store pre-loaded by 0..7 random operations (as C13) plus a canary record; sequences of 1..19 datagrams drawn from {empty, 1..11 bytes, random bytes, reference encodings with hostile names and 0..8 mutations, valid queries, valid responses, responses under the watched service with hostile instance labels (non-UTF-8, 63 bytes, dots), 1000..9000-byte datagrams, C01's pointer graphs, short bodies behind a header whose id octets span the datagram as labels}; each datagram goes, step for step, through what the three receive loops do (responder: header peek with unwrap_or(true), parse, build_reply, build_bytes_vec_compressed; discovery: parse, add_response_to_resources (sync, or the async-tokio copy for every third response) under a real RwLock write guard with and without an on_discovery channel, or build_reply; application: get_known_services; one-shot resolver: header peek on a 4096-byte buffer, parse, answer scan). Oracle: no panic, lock not poisoned, every reply parses, the canary is still answered. (1a) replies beyond 16 KiB: a responder holding 193 records under r0..r95.big.local answers an ANY query for big.local; one record is padded by 0..255 octets (6 (24 thorough) choices of the record) so that every name meets every alignment around offset 16384; the reply must parse and carry only registered records. (1b) six threads run the same handling steps concurrently against one shared store for 300 ms (no panic, lock not poisoned; schedules are whatever the OS gives). (2) real sockets, sampled: a real SimpleMdnsResponder and ServiceDiscovery (sync), then the async-tokio responder and discovery on a current-thread runtime, on loopback multicast receive 300 (6000 thorough) generated datagrams between two probe queries, and a real OneShotMdnsResolver (sync, and the async-tokio copy on its own runtime) issues queries while generated responses about the name it asks for (every RDATA kind, also empty RDATA under the asked types) arrive; violation iff a library thread panicked or the responder stops answering; skipped (no claim) when multicast is unusable. Non-trivial = a datagram shorter than 12 bytes or a parsed datagram with hostile names",
+        rule: "(1) pure pipeline, proptest: a store pre-loaded by 0..7 random operations (as C13) plus a canary record; sequences of 1..19 datagrams drawn from {empty, 1..11 bytes, random bytes, reference encodings with hostile names and 0..8 mutations, valid queries, valid responses, responses under the watched service with hostile instance labels (non-UTF-8, 63 bytes, dots), 1000..9000-byte datagrams, C01's pointer graphs, short bodies behind a header whose id octets span the datagram as labels}; each datagram goes, step for step, through what the three receive loops do (responder: header peek with unwrap_or(true), parse, build_reply, build_bytes_vec_compressed; discovery: parse, add_response_to_resources (sync, or the async-tokio copy for every third response) under a real RwLock write guard with and without an on_discovery channel, or build_reply; application: get_known_services; one-shot resolver: header peek on a 4096-byte buffer, parse, answer scan). Oracle: no panic, lock not poisoned, every reply parses, the canary is still answered. (1a) replies beyond 16 KiB: a responder holding 193 records under r0..r95.big.local answers an ANY query for big.local; one record is padded by 0..255 octets (6 (24 thorough) choices of the record) so that every name meets every alignment around offset 16384; the reply must parse and carry only registered records. (1b) six threads run the same handling steps concurrently against one shared store for 300 ms (no panic, lock not poisoned; schedules are whatever the OS gives). (2) real sockets, sampled: a real SimpleMdnsResponder and ServiceDiscovery (sync), then the async-tokio responder and discovery on a current-thread runtime, on loopback multicast receive 300 (6000 thorough) generated datagrams between two probe queries, and a real OneShotMdnsResolver (sync, and the async-tokio copy on its own runtime) issues queries while generated responses about the name it asks for (every RDATA kind, also empty RDATA under the asked types) arrive; violation iff a library thread panicked or the responder stops answering (30 retries over 10 s, and a control responder created afterwards does answer; if that one is silent too the section makes no claim); skipped (no claim) when multicast is unusable. Non-trivial = a datagram shorter than 12 bytes or a parsed datagram with hostile names",
         assumptions: vec![
             "the pure pipeline copies the loop bodies (simple_responder.rs, service_discovery.rs, oneshot_resolver.rs); an edit to the loops themselves is only visible to the socket section",
             "reader/writer interleavings on the shared store are only sampled (section concurrent), not explored systematically",
